@@ -394,7 +394,7 @@ def run_case(case):
 def run_case_once(case):
     """returns a JSON-able record of what the real code did: canonical line, chunks, storage read-back, timings"""
     res = dict(line=None, exc=None, phase="main", elapsed=0.0, chunks=None, saved={}, prep=[], expect=None, oracle_exc=None)
-    d = tempfile.mkdtemp(prefix="c01_")
+    d = tempfile.mkdtemp(prefix="c01_", dir=os.environ.get("VERIF_C01_TMP") or None)
     sink = io.StringIO()
     try:
         with contextlib.redirect_stdout(sink):
@@ -889,6 +889,8 @@ def run_pool(cases, workers, budget_s, note=None, stall_s=400, dead_s=150):
     if threading.active_count() > 1 and note:
         note(f"threads alive at fork time: {[t.name for t in threading.enumerate()][1:]}")
     mk = lambda: mp.get_context("fork").Pool(workers)   # noqa: E731
+    base = tempfile.mkdtemp(prefix="c01_run_")       # every storage directory of this run lives below it
+    os.environ["VERIF_C01_TMP"] = base
     pool = mk()
     results, flight = {}, {}
     todo = list(enumerate(cases))[::-1]
@@ -946,6 +948,8 @@ def run_pool(cases, workers, budget_s, note=None, stall_s=400, dead_s=150):
     finally:
         pool.terminate()
         pool.join()
+        os.environ.pop("VERIF_C01_TMP", None)
+        shutil.rmtree(base, ignore_errors=True)
     return results
 
 
@@ -990,7 +994,7 @@ def gen_cases(ctx):
 def run(ctx):
     cases = gen_cases(ctx)
     workers = int(os.environ.get("VERIF_C01_WORKERS", "8"))
-    results = run_pool(cases, workers, ctx.pick(120, 1000), note=ctx.note)
+    results = run_pool(cases, workers, ctx.pick(100, 1000), note=ctx.note)
     done = [i for i in range(len(cases)) if i in results]
     msgs = {}
     for i in done:
